@@ -214,7 +214,8 @@ def check_average(rec, viol, counts, classes, tol=1e-7):
         if len(a) != 1:
             cls = "avr-group-missing" if not a else "avr-group-duplicated"
             viol.append({"cls": cls, "msg": "group %s (%s) exists in conformations %r but appears %d times in AVR" % (
-                gs[0]["label"], gs[0]["type"], sorted(byconf), len(a)), "detail": {"in_first": names[0] in byconf}})
+                gs[0]["label"], gs[0]["type"], sorted(byconf), len(a)), "detail": {"in_first": names[0] in byconf},
+                "res": (k[0], k[1])})
             continue
         a = a[0]
         bad = []
@@ -235,7 +236,7 @@ def check_average(rec, viol, counts, classes, tol=1e-7):
                 break
         if bad:
             viol.append({"cls": "avr-not-the-mean", "msg": "group %s present in %d of %d conformations: %s" % (
-                a["label"], n, len(names), "; ".join(bad[:3])), "detail": {"present": n, "of": len(names)}})
+                a["label"], n, len(names), "; ".join(bad[:3])), "detail": {"present": n, "of": len(names)}, "res": (k[0], k[1])})
     for k, a in avr.items():
         if k not in per:
             viol.append({"cls": "avr-group-from-nowhere", "msg": "AVR reports %s which no conformation reports" % a[0]["label"]})
@@ -293,7 +294,7 @@ def check_topup(rec, text, ignore, viol, counts, classes):
                     continue          # residue absent here and of several types elsewhere: either is fine
                 if not got:
                     viol.append({"cls": "topup-atom-missing", "msg": "conformation %s lacks atom %r although it is present in %r with a compatible residue type" % (
-                        n, ident, sorted(where))})
+                        n, ident, sorted(where)), "res": (ident[0], ident[1])})
                     classes.append("topup-needed")
                 else:
                     classes.append("topup-needed")
